@@ -340,6 +340,10 @@ where
                 Ok(())
             }
             DataToken::SequenceEnd => {
+                // the sequence (or encapsulated pixel data element) is over:
+                // forget the header saved by `PixelSequenceStart`,
+                // so that the items of later sequences are not taken for fragments
+                self.last_de = None;
                 // only write if it's an unknown length sequence
                 if let Some(seq_start) = self.seq_tokens.pop() {
                     if seq_start.typ == SeqTokenType::Sequence && seq_start.len.is_undefined() {
